@@ -23,7 +23,7 @@ from . import heap  # noqa: F401  (tier B layer)
 from .models import numpy_cvx, genexp  # noqa: F401,E402
 
 ROOT = os.path.dirname(os.path.dirname(os.path.abspath(__file__)))
-CONTRACT_MODULES = ["numba_utils", "dissimilarity", "continuum", "alignment"]
+CONTRACT_MODULES = ["numba_utils", "dissimilarity", "continuum", "alignment", "sampler"]
 VENV_PY = "/venv/bin/python"
 
 
